@@ -34,6 +34,7 @@ void run(const Case &c, verif_result *out) {
     eo.hasLabelSets = (eo.prop == "C03") || c.geti("labelsets", 0) != 0;
     eo.exactWeights = c.get("mode", "exact") != "rounded";
     eo.pairValues = c.geti("pairvalues", 0) != 0;
+    eo.bigMult = c.geti("bigmult", 0) != 0;
     size_t n0 = (size_t)c.geti("n0", 0);
     if (n0 > 12)
         n0 = 12;
